@@ -35,7 +35,7 @@ func (c *Client) Attach(name string) (File, error) {
 
 	rattach := rattach{}
 	if err := c.sendRecv(&tattach{fid: fid(id), Auth: tauth{AttachName: name, Authenticationfid: noFID, UID: NoUID}}, &rattach); err != nil {
-		c.fidPool.Put(id)
+		c.releaseFID(id, err)
 		return nil, err
 	}
 
@@ -43,6 +43,17 @@ func (c *Client) Attach(name string) (File, error) {
 }
 
 // newFile returns a new client file.
+// releaseFID gives the fid of a failed binding request (attach, walk) back to
+// the pool, but only if the server refused the request, i.e. answered
+// Rlerror. After any other failure the request may still have been carried
+// out, so the server may have the fid bound; it is then never handed to
+// another File.
+func (c *Client) releaseFID(id uint64, err error) {
+	if _, refused := err.(linux.Errno); refused {
+		c.fidPool.Put(id)
+	}
+}
+
 func (c *Client) newFile(fid fid) *clientFile {
 	cf := &clientFile{
 		client: c,
@@ -126,7 +137,7 @@ func (c *clientFile) xattrWalkRead(attr string) ([]byte, error) {
 
 	rxattrwalk := rxattrwalk{}
 	if err := c.client.sendRecv(&txattrwalk{fid: c.fid, newFID: fid(id), Name: attr}, &rxattrwalk); err != nil {
-		c.client.fidPool.Put(id)
+		c.client.releaseFID(id, err)
 		return nil, err
 	}
 
@@ -162,7 +173,7 @@ func (c *clientFile) Walk(names []string) ([]QID, File, error) {
 
 	rwalk := rwalk{}
 	if err := c.client.sendRecv(&twalk{fid: c.fid, newFID: fid(id), Names: names}, &rwalk); err != nil {
-		c.client.fidPool.Put(id)
+		c.client.releaseFID(id, err)
 		return nil, nil, err
 	}
 
@@ -196,7 +207,7 @@ func (c *clientFile) WalkGetAttr(components []string) ([]QID, File, AttrMask, At
 
 	rwalkgetattr := rwalkgetattr{}
 	if err := c.client.sendRecv(&twalkgetattr{fid: c.fid, newFID: fid(id), Names: components}, &rwalkgetattr); err != nil {
-		c.client.fidPool.Put(id)
+		c.client.releaseFID(id, err)
 		return nil, nil, AttrMask{}, Attr{}, err
 	}
 
